@@ -414,9 +414,9 @@ class TypeTransformer:
             data = self._attempt_from_number(data)
             if isinstance(data, str):
                 if data.lower() in self.FALSE_VALUES:
-                    return 0
+                    return t(0)
                 if data.lower() in self.TRUE_VALUES:
-                    return 1
+                    return t(1)
             elif isinstance(data, t):
                 return data
 
@@ -593,8 +593,9 @@ class TypeTransformer:
                     and kw["seconds"].startswith("-")
                 ):
                     kw["microseconds"] = "-" + kw["microseconds"]
-                kw_ = {k: float(v) for k, v in kw.items() if v is not None}
-                return sign * t(**kw_)
+                # the sign goes into the components: `sign * t(...)` would be a plain timedelta for a subclass t
+                kw_ = {k: sign * float(v) for k, v in kw.items() if v is not None}
+                return t(**kw_)
             if self.no_explicit_cast:
                 raise ValueError(f"Invalid timedelta: {data}")
             tm = time.fromisoformat(data)
@@ -613,7 +614,7 @@ class TypeTransformer:
         data = self._attempt_from(data)
         if not self.no_data_loss:
             if isinstance(data, datetime):
-                return data.time()
+                return t(data.hour, data.minute, data.second, data.microsecond, fold=data.fold)
             if isinstance(data, date):
                 return t()
         data = self._from_byte_like(data)
@@ -622,7 +623,8 @@ class TypeTransformer:
                 try:
                     return t.fromisoformat(data)
                 except ValueError:
-                    return self.to_datetime(f'1970-01-01 {data}').time()
+                    dt = self.to_datetime(f'1970-01-01 {data}')
+                    return t(dt.hour, dt.minute, dt.second, dt.microsecond, fold=dt.fold)
         raise TypeError
 
     @registry.register(UUID)
